@@ -3,3 +3,87 @@
 Each predicate takes (stream, case, detail) of a failing case and says whether the failure is
 that recorded finding.  A failure no predicate claims is a VIOLATION.
 """
+
+
+def _desc(edges, srcs):
+    seen, st = set(srcs), list(srcs)
+    while st:
+        u = st.pop()
+        for a, b in edges:
+            if a == u and b not in seen:
+                seen.add(b)
+                st.append(b)
+    return seen - set(srcs)
+
+
+def c13_multi_do_descendant_parent(stream, case, detail):
+    """CausalInference.query with several do-variables where a parent (outside the do-set) of one
+    do-variable is a descendant of another: the parents-as-adjustment-set formula is not valid there."""
+    if stream != "query" or "X" not in case:
+        return False
+    X = [x for x, _ in case["X"]]
+    if len(X) < 2:
+        return False
+    edges = [tuple(e) for e in case["edges"]]
+    for x in X:
+        others = [o for o in X if o != x]
+        d = _desc(edges, others)
+        for p, c in edges:
+            if c == x and p not in X and p in d:
+                return True
+    return False
+
+
+# ----------------------------------------------------------------------------- C18
+def _sg_closure(assertions, buggy):
+    """semi-graphoid closure over frozenset triples; `buggy` reproduces the contraction test of
+    Independencies.closure as it stands (Y < YZ and Z < YZ and disjoint instead of YZ == Y|Z)"""
+    def canon(x, y, z):
+        return (frozenset([x, y]), z)
+    def sym(t):
+        x, y, z = t
+        return [(x, y, z), (y, x, z)]
+    cur = set()
+    new = {(frozenset(x), frozenset(y), frozenset(z)) for x, y, z in assertions}
+    seen = {canon(*t) for t in new}
+    allv = list(new)
+    while new:
+        pairs = [(a, b) for a in new for b in allv] + [(a, b) for a in allv for b in new]
+        out = set()
+        for t in new:
+            for (x, y, z) in sym(t):
+                if len(y) > 1:
+                    for e in y:
+                        out.add((x, y - {e}, z))
+                        out.add((x, y - {e}, z | {e}))
+        for a, b in pairs:
+            for (x1, w, yz) in sym(a):
+                for (x2, y, z) in sym(b):
+                    if x1 != x2:
+                        continue
+                    ok = (y < yz and z < yz and y.isdisjoint(z)) if buggy else (yz == (y | z) and y.isdisjoint(z))
+                    if ok:
+                        out.add((x1, w | y, z))
+        new = set()
+        for t in out:
+            if t[0] and t[1] and canon(*t) not in seen:
+                seen.add(canon(*t))
+                new.add(t)
+                allv.append(t)
+    return seen
+
+
+def c18_closure_contraction(stream, case, detail):
+    """Independencies.closure: the contraction rule fires with extra conditioning variables and never when Z is empty.
+    Claimed only when the implementation's answer is exactly what that faulty rule produces."""
+    if not stream.startswith("closure") or not isinstance(detail, dict) or "got" not in detail:
+        return False
+    got = {(frozenset([frozenset(a), frozenset(b)]), frozenset(c)) for a, b, c in detail["got"]}
+    emu = _sg_closure(case["assertions"], buggy=True)
+    return got == emu
+
+
+def c18_minimal_imap(stream, case, detail):
+    """JointProbabilityDistribution.minimal_imap adds the union of all 'working' subsets (or nothing): the result is in general
+    not an I-map.  The whole function is affected (its unit test pins the wrong graphs)."""
+    return stream == "imap" and isinstance(detail, str) and detail.startswith("minimal_imap(")
